@@ -88,6 +88,9 @@ structure Mon where
   authOK : List Nat := []        -- sessions whose own PAP exchange was accepted
   prev : List Seen := []
   radius : Bool := false
+  /-- addresses known to be stranded by the idle sweep (recorded finding KF-pppoe-idle-leak) -/
+  stranded : Nat := 0
+  total : Nat := 0
 
 def parseSeen (s : String) : List Seen :=
   if s == "-" then [] else
@@ -156,11 +159,30 @@ def monitor (mn : Mon) (i : In) (impl : String) : Mon × List (String × String 
         else []
       | _, _ => []
     | none => []
+  -- 4. (C16/C05) every address recorded as allocated belongs to a live session, nothing is lost
+  let poolTok := (field impl "pool").splitOn "/"
+  let (free, alloc) := match poolTok with
+    | [f, a] => (f.toNat?.getD 0, a.toNat?.getD 0)
+    | _ => (0, 0)
+  let holders := (seen.filter (·.ip != "-")).length
+  let sweptNow := match i with
+    | .sweep => (mn.prev.filter (·.ip != "-")).length
+    | _ => 0
+  let stranded := mn.stranded + sweptNow
+  let v4 :=
+    (if sweptNow > 0 then
+      [("residue", "KF-pppoe-idle-leak", s!"the idle sweep removed {sweptNow} session(s) without returning their address")]
+     else []) ++
+    (if alloc ≠ holders + stranded then
+      [("residue", "none", s!"{alloc} addresses recorded as allocated but {holders} live sessions hold one (+{stranded} stranded by sweeps)")]
+     else []) ++
+    (if mn.total ≠ 0 ∧ free + alloc ≠ mn.total then
+      [("conservation", "none", s!"free {free} + allocated {alloc} ≠ pool size {mn.total}")] else [])
   -- sessions that disappeared lose their record
   let live := seen.map (·.sid)
   let owner := owner.filter fun p => live.contains p.1
   let authOK := authOK.filter fun sid => live.contains sid
-  ({ mn with owner := owner, authOK := authOK, prev := seen }, v1 ++ v2 ++ v3)
+  ({ mn with owner := owner, authOK := authOK, prev := seen, stranded := stranded }, v1 ++ v2 ++ v3 ++ v4)
 
 structure St where
   model : Option Srv := none
@@ -170,7 +192,7 @@ def step (st : St) (toks : List String) (impl : String) : St × LineResult :=
   match toks with
   | ["new", r, bits] =>
     match bits.toNat? with
-    | some b => ({ model := some (init (r == "radius") b), mon := { radius := r == "radius" } }, { modelObs := "ok" })
+    | some b => ({ model := some (init (r == "radius") b), mon := { radius := r == "radius", total := (poolAddrs b).length } }, { modelObs := "ok" })
     | none => (st, { modelObs := "badop" })
   | _ =>
     match st.model, parseIn toks with
